@@ -128,6 +128,9 @@ func crashKey(o Out) string {
 	case "panic":
 		return o.Site
 	case "fatal":
+		if strings.Contains(o.Panic, "stack overflow") {
+			return "fatal:stack-overflow" // the frame on top when the stack ran out is arbitrary
+		}
 		return "fatal:" + o.Site
 	}
 	return ""
@@ -550,7 +553,9 @@ func shrinkOne(pool *Pool, f failure) res.Finding {
 	small, used := Shrink(f.doc, still, budget)
 	key := f.key
 	if key == "hang" {
-		key = "hang:" + hangClass(small)
+		// one key for all hangs (their documents shrink badly, a class derived from the remaining
+		// features is not stable); the features present are given in the reason instead
+		f.reason += " [layout features present: " + hangClass(small) + "]"
 	}
 	return res.Finding{Kind: f.kind, Op: op, Input: small.Text(), Impl: map[string]interface{}{"status": f.out.Status, "panic": f.out.Panic, "site": f.out.Site, "stack": f.out.Stack, "pages_announced": f.out.Counted},
 		Reason: f.reason + fmt.Sprintf(" [shrunk from %d to %d bytes in %d renders]", len(f.doc.Text()), len(small.Text()), used), Key: key}
